@@ -194,6 +194,16 @@ def locate(trace_lines, lineno):
     return sid, idx
 
 
+def history_of(trace_lines, sid):
+    """Ids of the scripts that ran on the same gateway instance as sid, up to and including it, in order."""
+    resets = [e for e in trace_lines if e.get("ev") == "reset"]
+    me = next((e for e in resets if e.get("script") == sid), None)
+    if me is None:
+        return [sid]
+    same = sorted((e for e in resets if e.get("job") == me.get("job") and e.get("pos", 0) <= me.get("pos", 0)), key=lambda e: e.get("pos", 0))
+    return [e["script"] for e in same]
+
+
 def run_scripts(work, scripts, seed, tier, tag, jobs=12):
     sp = work.path("scripts-%s.ndjson" % tag)
     tp = work.path("trace-%s.ndjson" % tag)
@@ -368,7 +378,11 @@ def gen_c16_scripts(tier, seed):
                     "repeat": (H_A, [hs, hs]),
                     "closeearly": (H_A, [hs, good, auth, {"k": "close"}]),
                 }
-                for on in sorted(outcomes):
+                # the same accepted exchange once more after every kind of refusal happened on this gateway
+                # instance: what a tunnel is answered must not depend on what other tunnels did before it
+                outcomes["again"] = outcomes["accepted"]
+                order = ["accepted"] + sorted(o for o in outcomes if o not in ("accepted", "again")) + ["again"]
+                for on in order:
                     hp, steps = outcomes[on]
                     tun = dict(hp, user=user)
                     scripts.append({"id": "o%05d-%s" % (n, on), "origin": "c16:%s" % on, "cfg": cfg, "transport": ["ws", "legacy"][(h + len(on)) % 2], "tun": tun, "steps": steps})
